@@ -17,6 +17,12 @@ RULE = ("hand-written catalogue (no forwarding plugin; ecs_handler forward / pre
         "upstream without OPT, failing, BADVERS; no upstream at all; prefer_ipv4/prefer_ipv6 in front of and behind "
         "forwarders and caches with distinct cookies on the reference and the served reply, pass and block; fallback "
         "with forwarders inside both branches and around it, primary answering / failing / SERVFAIL, standing by or not) "
+        "+ lazy-cache cases: [forwarders?] cache(lazy_cache_ttl 3600/86400) [forwarders?] rendezvous forward [ttl?]: a priming "
+        "query stores, VerifC10Backdate expires every stored message (entries retained), then an overlapping PAIR of "
+        "stale hits by two clients with OPTs (the first passes the cache, both wait at a rendezvous executable behind it, "
+        "the upstream is held so the one lazy update stays in flight and then fails), a client without OPT, further "
+        "single and paired stale hits whose refresh fails or succeeds, fresh hits after a refresh; after every step the "
+        "message the cache holds under the key (VerifC10Item) is observed "
         "+ function-level cases on structures with OPT records anywhere: the five TTL helpers, copyNoOpt, NewContext, "
         "SetResponse, and Context.Copy followed by plugin-style writes (RespOpt options, query OPT options, in-place TTL "
         "rewrite, SetResponse) to the copy or to the original with both observed afterwards + seeded random chains of the REAL cache, ttl, "
@@ -33,7 +39,10 @@ ASSUMPTIONS = [
     "the upstream-side theorem and the cache invariant need no hypothesis)",
     "miekg Msg.Truncate satisfies the relation Model.Handler.trunc_rel (checked on every observed UDP reply)",
     "a record has type 41 exactly when miekg represents it as *dns.OPT (representation invariant of Model/Msg.v)",
-    "the lazy cache refresh is not modelled",
+    "lazy cache: the background refresh (a goroutine running the rest of the chain on a copy) is modelled in sequence "
+    "before the foreground continuation; overlapping hits are arranged so that this is an equivalent order (first query "
+    "at the rendezvous before the second starts, upstreams held until both replies are out, refresh fails); staleness is "
+    "produced with VerifC10Backdate, not by waiting",
     "fallback and dual_selector: the concurrent sub-runs on context copies are modelled in sequence (reference before "
     "original, primary before secondary) and their timers are left out; the drivers configure fallback's threshold "
     "to 60 s, give a standing-by secondary no cache shared with the primary, use each selector instance once, join "
@@ -51,7 +60,7 @@ TRUSTED_BASE = [
     "(answers as a function of the message it receives) plugged into the real forward plugin via VerifNewForward",
 ]
 LEVEL_TEXT = ("Theorems in coq/Properties/C15.v for every sequence program over the modelled plugins (cache, redirect, "
-              "ecs_handler, forward_edns0opt, dual_selector, fallback over sub-programs nested to any depth, hosts, "
+              "ecs_handler, forward_edns0opt, the cache incl. its lazy mode, dual_selector, fallback over sub-programs nested to any depth, hosts, "
               "black_hole, arbitrary, ttl, forward, drop_resp, reject, any matchers), every client query, every upstream behaviour and every cache timing: each message handed to an upstream has "
               "exactly one fresh OPT (size edns0Size, DO clear, version 0) whose options were put there by an ecs_handler / "
               "forward_edns0opt of the table; the reply has one OPT iff the client sent one, DO mirrored, options only from "
@@ -60,7 +69,9 @@ LEVEL_TEXT = ("Theorems in coq/Properties/C15.v for every sequence program over 
               "contract keeps the OPT; a context copy is a value of its own, fallback returns nothing but a response and "
               "dual_selector ends with the response OPT of the one sub-run it adopts. The model is run inside Coq on every case the Go driver observed on the real "
               "plugins behind the real EntryHandler.Handle (Judge.C15.agree), and Judge.C15.spec states the property on "
-              "the observations alone (reply options must all come from ONE upstream reply given while the query was handled).")
+              "the observations alone (every option of an upstream query is a client option a plugin is configured to forward "
+              "or exactly the subnet an ecs_handler is configured to make; reply options must all come from ONE upstream "
+              "reply given while the query was handled; what a cache holds has no OPT).")
 LEVEL_NOTE = ("Trusted: Coq kernel + vm_compute; hand-written model tied to the code by the differential run and "
               "Gen/Constants.v; contract of miekg Truncate/Pack; upstream replies with at most one OPT. Observation: the "
               "extended-rcode byte of the client's OPT travels to the upstream inside the fresh OPT (miekg Pack copies "
